@@ -45,4 +45,17 @@ C20_SameOutcome == ("clean" \in DOMAIN last /\ last.clean) => last.oka = last.ok
 \* the general rule restricted to the small machine is the rule of TwoRun.tla
 SmallAgrees == \A i \in Insns : \A tt \in SUBSET Regs : Taint(tt, i) = TaintG(tt, Summ(i), TRUE)
 ASSUME SmallAgrees
+\* the machine explored here is a MODEL of the assumptions under which TaintSound.tla proves noninterference for any
+\* instruction set (so those assumptions are consistent and mean what the summaries are meant to say)
+AllStates == [Loc -> Vals]
+SemHolds == \A sa, sb \in AllStates, i \in GI :
+              LET s == GSumm(i) IN
+              (\A l \in s.reads : sa[l] = sb[l]) =>
+                 /\ Ok(sa, i) = Ok(sb, i)
+                 /\ (Ok(sa, i) => \A l \in s.wfull : GEff(sa, i)[l] = GEff(sb, i)[l])
+                 /\ (Ok(sa, i) => \A l \in s.wpart : sa[l] = sb[l] => GEff(sa, i)[l] = GEff(sb, i)[l])
+FrameHolds == \A sa \in AllStates, i \in GI, l \in Loc :
+                l \notin GSumm(i).wfull \cup GSumm(i).wpart => GEff(sa, i)[l] = sa[l]
+RefusedHolds == \A sa \in AllStates, i \in GI : ~Ok(sa, i) => GEff(sa, i) = sa
+ASSUME SemHolds /\ FrameHolds /\ RefusedHolds
 =============================================================================
